@@ -1,8 +1,59 @@
 import RsslVerif.Model.Progress
+import RsslVerif.Model.DefinedLoc
 import RsslVerif.Driver.Util
-/-! Line-protocol front end of the C08 models (TokenStream bookkeeping, ConditionChain). -/
+/-! Line-protocol front end of the C08 models (TokenStream bookkeeping, ConditionChain, macro scan with locations). -/
 namespace RsslVerif.Driver.C08
 open RsslVerif.Model.Progress RsslVerif.Driver
+
+/-! ### `C08.defscan`: `Macro::parse` of the definitions, then `apply_macros(command, macros, true)` -/
+section DefScan
+open RsslVerif.Model.DefinedLoc RsslVerif.Gen.ArithSites
+
+/-- `i3:10:13` identifier 3 · `l r c` parentheses, comma · `b` blank · `e` endline · `h` `##` · `n7` literal · `o` other -/
+def parseTok (s : String) : Option Tok :=
+  match s.splitOn ":" with
+  | [k, a, b] =>
+    match a.toNat?, b.toNat? with
+    | some a, some b =>
+      let kind : Option K :=
+        if k == "l" then some .lparen else if k == "r" then some .rparen else if k == "c" then some .comma
+        else if k == "b" then some .blank else if k == "e" then some .endline else if k == "h" then some .hashhash
+        else if k == "o" then some .other
+        else if k.startsWith "i" then (k.drop 1).toNat?.map K.id
+        else if k.startsWith "n" then (k.drop 1).toNat?.map K.lit
+        else none
+      kind.map (⟨·, a, b⟩)
+    | _, _ => none
+  | _ => none
+
+def parseToks (s : String) : Option (List Tok) :=
+  if s == "-" then some [] else sequenceOpt ((s.splitOn " ").map parseTok)
+
+def defScan (defs : List (List Tok)) (cmd : List Tok) : String :=
+  let rec build : List (List Tok) → List Macro → Except Err (List Macro)
+    | [], ms => .ok ms
+    | d :: r, ms =>
+      match parseDefine d with
+      | .error e => .error e
+      | .ok m => build r (addMacro ms m)
+  match build defs [] with
+  | .error _ => "err:invalid-define"
+  | .ok ms =>
+    match applyMacros (fun _ _ => none) bodyRescanFlag argExpandFlag 100000 ms (trim cmd) true with
+    | .ok _ => "done"
+    | .error .invalidDefine => "err:invalid-define"
+    | .error .macroRequiresArguments => "err:requires-arguments"
+    | .error .macroArgumentsNeverEnd => "err:arguments-never-end"
+    | .error .macroExpectsDifferentNumberOfArguments => "err:different-number"
+    | .error .concatMissingLeftToken => "err:concat-left"
+    | .error .concatMissingRightToken => "err:concat-right"
+    | .error .concatFailed => "unsupported: the result of ## needs the lexer"
+    | .error (.panic s) => "panic:" ++ s
+    | .error .subOverflow => "panic:attempt to subtract with overflow"
+    | .error .hang => "hang"
+    | .error .fuel => "model: out of fuel"
+
+end DefScan
 
 /-- `3,1e,2` -> [(3,false),(1,true),(2,false)] : raw token lengths produced by the real single-token lexer -/
 def parseScript (s : String) : Option (List (Nat × Bool)) :=
@@ -58,6 +109,11 @@ def handle (op : String) (args : List String) : String :=
     | .error .elseNotMatched => "err:else-not-matched"
     | .error .endIfNotMatched => "err:endif-not-matched"
     | .error .notFinished => "err:not-finished"
+  | "C08.defscan", [defsS, cmdS, _scenario] =>
+    let defs := if defsS == "-" then some [] else sequenceOpt ((defsS.splitOn "|").map parseToks)
+    match defs, parseToks cmdS with
+    | some ds, some cmd => defScan ds cmd
+    | _, _ => "bad-request"
   | "C08.compile", _ => "unsupported: whole-compiler totality is observed by the supervised run, not predicted"
   | _, _ => "unsupported-op"
 
